@@ -72,8 +72,8 @@ def monitor(sc, res):
     if io_["asc_before"] != io_["asc_after"] or io_["media_before"] != io_["media_after"]:
         ch = sorted(set(io_["asc_after"]) ^ set(io_["asc_before"])) or [k for k in io_["asc_after"] if io_["asc_after"][k] != io_["asc_before"].get(k)]
         fails.append({"what": f"{desc}: the refused command changed the tree: {ch[:4]}", "replay": sc})
-    if meta["cmd"] == "flatten" and io_.get("flatten_dest"):
-        fails.append({"what": f"{desc}: flatten wrote {sorted(io_['flatten_dest'])} although the history is damaged", "replay": sc})
+    if meta["cmd"] == "flatten" and (io_.get("flatten_dest") or io_.get("flatten_dest_dirs")):
+        fails.append({"what": f"{desc}: flatten wrote {sorted(io_.get('flatten_dest') or []) + [d + '/' for d in io_.get('flatten_dest_dirs') or []]} into its destination although the history is damaged (a refused command writes nothing)", "replay": sc})
     return fails
 
 
